@@ -283,6 +283,42 @@ Get(k) ==
   /\ UNCHANGED <<prune, db, root, rc, contents, root2, contents2, bopen, cache, corder,
                  broot, brc, bcontents, bops, lost, past>>
 
+\* C18: the table of ill-formed calls, the exception class each must be refused with, and when
+\* it applies.  The conformance harness substitutes concrete ill-typed values for each kind.
+HexRejects ==
+  { [entry |-> "get", arg |-> "key", kind |-> "notbytes", exc |-> "ValidationError", needs |-> "any"],
+    [entry |-> "exists", arg |-> "key", kind |-> "notbytes", exc |-> "ValidationError", needs |-> "any"],
+    [entry |-> "getitem", arg |-> "key", kind |-> "notbytes", exc |-> "ValidationError", needs |-> "any"],
+    [entry |-> "contains", arg |-> "key", kind |-> "notbytes", exc |-> "ValidationError", needs |-> "any"],
+    [entry |-> "delete", arg |-> "key", kind |-> "notbytes", exc |-> "ValidationError", needs |-> "any"],
+    [entry |-> "delitem", arg |-> "key", kind |-> "notbytes", exc |-> "ValidationError", needs |-> "any"],
+    [entry |-> "get_proof", arg |-> "key", kind |-> "notbytes", exc |-> "ValidationError", needs |-> "any"],
+    [entry |-> "set", arg |-> "key", kind |-> "notbytes", exc |-> "ValidationError", needs |-> "any"],
+    [entry |-> "set", arg |-> "value", kind |-> "notbytes", exc |-> "ValidationError", needs |-> "any"],
+    [entry |-> "setitem", arg |-> "key", kind |-> "notbytes", exc |-> "ValidationError", needs |-> "any"],
+    [entry |-> "setitem", arg |-> "value", kind |-> "notbytes", exc |-> "ValidationError", needs |-> "any"],
+    [entry |-> "get_from_proof", arg |-> "key", kind |-> "notbytes", exc |-> "ValidationError", needs |-> "any"],
+    [entry |-> "get_from_proof", arg |-> "root", kind |-> "notbytes", exc |-> "ValidationError", needs |-> "any"],
+    [entry |-> "constructor", arg |-> "root", kind |-> "notbytes", exc |-> "ValidationError", needs |-> "any"],
+    [entry |-> "at_root", arg |-> "root", kind |-> "notbytes", exc |-> "ValidationError", needs |-> "nonpruning"],
+    [entry |-> "at_root", arg |-> "root", kind |-> "valid", exc |-> "ValidationError", needs |-> "pruning"],
+    [entry |-> "constructor", arg |-> "ref_count", kind |-> "given", exc |-> "ValueError", needs |-> "nonpruning"],
+    [entry |-> "traverse", arg |-> "path", kind |-> "notsequence", exc |-> "TypeError", needs |-> "any"],
+    [entry |-> "traverse", arg |-> "path", kind |-> "badnibble", exc |-> "ValueError", needs |-> "any"],
+    [entry |-> "traverse_from", arg |-> "path", kind |-> "notsequence", exc |-> "TypeError", needs |-> "any"],
+    [entry |-> "traverse_from", arg |-> "path", kind |-> "badnibble", exc |-> "ValueError", needs |-> "any"] }
+RejectApplies(e) == \/ e.needs = "any"
+                    \/ (e.needs = "pruning" /\ prune) \/ (e.needs = "nonpruning" /\ ~prune)
+\* an ill-formed call, at any point of a history, on the outer trie or on the open batch:
+\* refused with the tabulated exception; nothing changes
+Rejected(e) ==
+  /\ RejectApplies(e)
+  /\ res' = OutKind("rejected")
+  /\ Log([a |-> "reject", entry |-> e.entry, arg |-> e.arg, kind |-> e.kind, exc |-> e.exc,
+          on |-> IF bopen /\ e.entry \notin {"constructor", "at_root", "get_from_proof"} THEN "batch" ELSE "outer",
+          out |-> JOut(res')])
+  /\ UNCHANGED <<prune, db, root, rc, contents, root2, contents2, bopen, cache, corder,
+                 broot, brc, bcontents, bops, lost, past>>
 DevNibs == {0, 1, 7, 15}
 TravPaths(c) == PathsOf(Live(c), DevNibs)
 Splits(p) == {<<Take(p, n), Drop(p, n)>> : n \in 0..Len(p)}
@@ -315,6 +351,7 @@ Other == \/ \E k \in Keys : \E v \in Vals \cup {NoVal} :
          \/ ("lose" \in Features /\ \E n \in db : EnvLose(n))
          \/ ("lose" \in Features /\ \E n \in lost : EnvSupply(n))
          \/ ("get" \in Features /\ \E k \in LookupKeys : Get(k))
+         \/ ("reject" \in Features /\ \E e \in HexRejects : Rejected(e))
          \/ ("trav" \in Features /\ \E p \in TravPaths(contents) : Traverse(p))
          \/ ("trav" \in Features /\ \E p \in TravPaths(contents) : \E sp \in Splits(p) : TraverseFrom(sp[1], sp[2]))
 Next == Begin \/ (Other /\ UNCHANGED saved)
@@ -460,6 +497,13 @@ GetSameAsComplete ==
   \A k \in LookupKeys :
      LET g == GetOut(root, k, Only(db), Bugs) IN
      g.kind = "missing" \/ g = GVal(ModelVal(contents, k))
+
+\* C18  a refused call changes nothing (and, since TLC interleaves Rejected with every other
+\* action, every invariant above holds on every continuation: "as if the call had not been made")
+RejectedUnchanged ==
+  [][last'.a = "reject" =>
+        UNCHANGED <<prune, db, root, rc, contents, root2, contents2, bopen, cache, corder,
+                    broot, brc, bcontents, lost, past>>]_vars
 
 \* C10  iteration: next() is the strict successor, the pre-order walk yields sorted items
 IterQueries == LookupKeys
